@@ -42,6 +42,7 @@ THEOREMS = [
     "Nix.C04.delete_keys_self",
     "Nix.C04.subtree_complete",
     "Nix.C04.subtree_complete_of_done",
+    "Nix.C04.subtree_finite_of_growing",
     "Nix.C04.subtree_sound",
     "Nix.C04.delete_gone",
     "Nix.C04.delete_owned_unreachable",
@@ -87,7 +88,10 @@ ASSUMPTIONS = [
     "subtree_complete: the section / source hierarchy below the deleted entity is a finite forest of at most "
     "|nodes|^2+1 entities (the breadth-first collection of the model is fuel-based; API-built files satisfy it); "
     "subtree_complete_of_done replaces it by the decidable 'the collection ended with an empty queue', which the "
-    "model driver evaluates (op fuel_ok) before every section / source deletion of the correspondence runs",
+    "model driver evaluates (op fuel_ok) before every section / source deletion of the correspondence runs; "
+    "subtree_finite_of_growing proves the finite-forest half of the hypothesis (and that the visited-set-free "
+    "collection loop ends, complete) from the decidable condition that every child key exceeds its parent's "
+    "(GrowingKids: objects are keyed in creation order) - the bound on the count remains a hypothesis",
     "deletion is by HDF5 object (fix 'deleting an entity also deleted every same-id copy file-wide'): h5py's `==` / "
     "`in` on Group / Dataset objects is object identity in the file (same file number and address) - modelled as "
     "equality of node keys; the frame at full strength (frame_full, delete_frame, delete_exact) is proved for "
